@@ -342,6 +342,7 @@ def run(ctx, rep):
                        "handed back is not released before the reply that carries it)")
     _retention_rules(ctx, rep)
     K.share(ctx, rep, "c03", lambda o: o.rule == "R03.9", "R10.9", floor=1)
+    K.share(ctx, rep, "c03", lambda o: o.rule == "R03.2" and "is never refused" in o.key, "R10.7", floor=3)
 
 
 class _ModelLock:
